@@ -239,6 +239,7 @@ class TryInfo:
     id: str
     node: ast.Try
     handlers: List[Tuple[str, Tuple[str, ...]]] = field(default_factory=list)  # (handler id, exception names)
+    falls: Dict[str, tuple] = field(default_factory=dict)  # handler id -> condition under which the handler falls through
 
 
 @dataclass
@@ -701,7 +702,10 @@ class Evaluator:
         l_body = self.block(st.body, live)
         self.try_stack.pop()
         if st.orelse:
-            l_body = self.block(st.orelse, l_body)
+            # the else clause runs iff the body completed without an exception
+            l_body = self.block(st.orelse, AND(l_body, ("completed", tid)))
+            if l_body != FALSE:
+                l_body = AND(*[c for c in conjuncts(l_body) if c != ("completed", tid)])
         env_body = self.env
         lives = [l_body]
         envs = [env_body]
@@ -719,6 +723,7 @@ class Evaluator:
             self.handler_stack.append(hid)
             lh = self.block(h.body, AND(live, ("caught", hid, names)))
             self.handler_stack.pop()
+            info.falls[hid] = lh
             lives.append(lh)
             envs.append(self.env)
         alive = [(l, e) for l, e in zip(lives, envs) if l != FALSE]
@@ -1335,6 +1340,61 @@ def expand_pure_calls(t, summaries: "Summaries", cls: Optional[ClassInfo], modul
     for r in reversed(rets[:-1]):
         v = ITE(subst(r.live, bound), subst(r.term, bound), v)
     return fold_sub(expand_pure_calls(v, summaries, cls, module, depth + 1))
+
+
+def normalise_find_first(sm: "Summary") -> "Summary":
+    """View of a summary in which every find-first loop
+
+        for x in it:
+            if c(x):
+                return f(x)
+        <rest>
+
+    reads `n = next((x for x in it if c(x)), None)`; `if n is not None: return f(n)`; <rest> (the elements are
+    objects, never None).  Only loops whose body does nothing but that conditional return qualify.  Applied on demand
+    by rules whose reference spelling is the next() form."""
+    import dataclasses
+    evs = list(sm.events)
+    changed = False
+    for lid, li in sm.loops.items():
+        if li.kind != "for" or li.has_else:
+            continue
+        inside = [e for e in evs if lid in e.loops]
+        rets = [e for e in inside if e.kind == "return"]
+        if len(rets) != 1 or rets[0].loops[-1] != lid or any(e.kind not in ("call", "return") for e in inside):
+            continue
+        r = rets[0]
+        conj = list(conjuncts(r.live))
+        if ("inloop", lid) not in conj:
+            continue
+        k = conj.index(("inloop", lid))
+        pre, conds = conj[:k], conj[k + 1:]
+        el = ("elem", lid)
+        if any(x[0] in ("phi", "loopout") for c in conds for x in walk(c)):
+            continue
+        n = ("call", ("builtin", "next"), (("comp", "gen", el, ((lid, li.iter, tuple(conds)),)), NONE), ())
+        found = ("cmp", "isnot", n, NONE)
+        out = []
+        done = False
+        for e in evs:
+            if lid in e.loops:
+                if e is r:
+                    out.append(Event("call", AND(*pre), n, r.node, r.loops[:-1], r.idx, r.handlers, r.in_handler))
+                    out.append(Event("return", AND(*pre, found), subst(r.term, {el: n}), r.node, r.loops[:-1], r.idx, r.handlers,
+                                     r.in_handler))
+                    done = True
+                elif e.kind == "call" and any(x == e.term for x in walk(r.term)):
+                    # the call that computes the returned value happens once, for the element found
+                    out.append(Event("call", AND(*pre, found), subst(e.term, {el: n}), e.node, e.loops[:-1], e.idx, e.handlers, e.in_handler))
+                continue
+            if done and e.idx > r.idx and all(c in conjuncts(e.live) for c in pre):
+                e = dataclasses.replace(e, live=AND(e.live, NOT(found)))
+            out.append(e)
+        evs = out
+        changed = True
+    if not changed:
+        return sm
+    return dataclasses.replace(sm, events=evs)
 
 
 # ---------------------------------------------------------------------------------- term utilities
